@@ -11,17 +11,21 @@
 (* dispatches a logged call record c (see lib/ackcommon.py: call()).              *)
 (*                                                                               *)
 (* Facts of the code preserved here:                                             *)
-(*  - a segment node joins the tree only at its first error, under the *current*  *)
-(*    set (also when that set is already closed);                                 *)
-(*  - seg_error wraps attachment in a bare except: with no set to attach to, or   *)
-(*    when the cursor is an ISA/GS/ST node (add_error has another arity), the     *)
-(*    error is dropped (counted in `dropped`);                                    *)
-(*  - element errors raised while the cursor is an ISA/GS/ST node are stored in   *)
-(*    that node's `elements`; err_st.err_count ignores them;                      *)
+(*  - a segment node joins the tree only at its first error, under the current     *)
+(*    set, and only while that set is open;                                        *)
+(*  - a segment-level error reported anywhere else (cursor on an ISA/GS/ST node,   *)
+(*    no set open, set already closed) is kept on the innermost loop still open    *)
+(*    with the generic code 5 (set) / 1 (group) / 024 (interchange);               *)
+(*  - gs_error without a group goes to the interchange (024), st_error without a   *)
+(*    set to the group (1);                                                        *)
+(*  - element errors raised while the cursor is an ISA/GS/ST node are stored in    *)
+(*    that node's `elements`; they count for the set / group, and one arriving      *)
+(*    after close_st / close_gs turns the frozen acknowledgement code to R;         *)
 (*  - ele_error attaches the *last add_ele'd* element node unless the caller     *)
 (*    names another position by reference designator (then a node without a       *)
 (*    data element number is made for that position);                             *)
-(*  - ack codes and group totals are frozen by close_*; int(GE01) may raise.      *)
+(*  - ack codes and group totals are frozen by close_*; a GE01 that is no number    *)
+(*    counts as 0.                                                                 *)
 EXTENDS Naturals, Sequences, FiniteSets, TLC
 LOCAL Env == INSTANCE Envelope
 
@@ -46,7 +50,8 @@ EleCount(t, i) == Len(t.nodes[i].errs)
 SegChildErr(t, i) == \E j \in 1..Len(t.nodes) : t.nodes[j].par = i /\ t.nodes[j].t = "ele" /\ t.nodes[j].errs # <<>>
 SegErrCount(t, i) == Len(t.nodes[i].errs) + (IF SegChildErr(t, i) THEN 1 ELSE 0)
 StChildErr(t, i) == \E j \in 1..Len(t.nodes) : t.nodes[j].par = i /\ t.nodes[j].t = "seg" /\ SegErrCount(t, j) > 0
-StErrCount(t, i) == Len(t.nodes[i].errs) + (IF StChildErr(t, i) THEN 1 ELSE 0)          \* err_st.elements are not counted
+StEleErrs(t, i) == LET es == Eles(t, i) IN SumSeq([k \in 1..Len(es) |-> EleCount(t, es[k])])
+StErrCount(t, i) == Len(t.nodes[i].errs) + (IF StChildErr(t, i) THEN 1 ELSE 0) + StEleErrs(t, i)
 GsErrCount(t, i) == LET es == Eles(t, i)  ss == Kids(t, i, "st") IN
                     SumSeq([k \in 1..Len(es) |-> EleCount(t, es[k])]) + SumSeq([k \in 1..Len(ss) |-> StErrCount(t, ss[k])]) + Len(t.nodes[i].errs)
 IsaErrCount(t, i) == LET es == Eles(t, i)  gg == Kids(t, i, "gs") IN
@@ -76,14 +81,21 @@ AddCurSeg(t) == IF t.seg_added THEN t
                 ELSE [t EXCEPT !.nodes = Append(@, [t.pseg EXCEPT !.par = t.st]), !.segi = Len(t.nodes) + 1, !.seg_added = TRUE]
 AddErr(t, i, code, val, mark) == [t EXCEPT !.nodes[i].errs = Append(@, <<code, val>>), !.nodes[i].marks = Append(@, mark)]
 IsaError(t, c) == IF t.isa = 0 THEN Crash(t) ELSE [t EXCEPT !.nodes[t.isa].errs = Append(@, <<c.code, "">>)]
-GsError(t, c) == IF t.gs = 0 THEN Crash(t) ELSE [t EXCEPT !.nodes[t.gs].errs = Append(@, <<c.code, "">>)]
-StError(t, c) == IF t.st = 0 THEN Crash(t) ELSE [t EXCEPT !.nodes[t.st].errs = Append(@, <<c.code, "">>)]
-SegErrorDropped(t) == ~CanAddCurSeg(t) \/ t.segk # "seg"
+GsError(t, c) == IF t.gs = 0 THEN IsaError(t, [c EXCEPT !.code = "024"])                 \* no group yet: reported at the interchange
+                 ELSE [t EXCEPT !.nodes[t.gs].errs = Append(@, <<c.code, "">>)]
+StError(t, c) == IF t.st = 0 THEN GsError(t, [c EXCEPT !.code = "1"])                    \* no set yet: reported at the group
+                 ELSE [t EXCEPT !.nodes[t.st].errs = Append(@, <<c.code, "">>)]
+(* seg_error: on the current segment node while its set is open, else on the innermost loop still open *)
+InOpenSetBody(t) == t.segk = "seg" /\ (t.seg_added \/ (t.st # 0 /\ ~t.nodes[t.st].closed))
+OpenLoop(t) == IF t.st # 0 /\ ~t.nodes[t.st].closed THEN t.st
+               ELSE IF t.gs # 0 /\ ~t.nodes[t.gs].closed THEN t.gs
+               ELSE t.isa                                                                \* 0: nothing to attach to (only logged)
+LoopCode(kind) == CASE kind = "st" -> "5" [] kind = "gs" -> "1" [] OTHER -> "024"
 SegError(t, c) ==
-  IF ~CanAddCurSeg(t) THEN [t EXCEPT !.dropped = @ + 1]                      \* _add_cur_seg raised: swallowed
-  ELSE LET t1 == AddCurSeg(t) IN
-       IF t1.segk # "seg" THEN [t1 EXCEPT !.dropped = @ + 1]                  \* None, or add_error of another arity: swallowed
-       ELSE [t1 EXCEPT !.nodes[t1.segi].errs = Append(@, <<c.code, c.val>>)]
+  IF InOpenSetBody(t) THEN LET t1 == AddCurSeg(t) IN [t1 EXCEPT !.nodes[t1.segi].errs = Append(@, <<c.code, c.val>>)]
+  ELSE LET i == OpenLoop(t) IN
+       IF i = 0 THEN [t EXCEPT !.dropped = @ + 1]
+       ELSE [t EXCEPT !.nodes[i].errs = Append(@, <<LoopCode(t.nodes[i].t), "">>)]
 (* an error located by its reference designator (c.rpos > 0) gets a node of its own when the element cursor stands elsewhere *)
 Relocate(t, c) ==
   IF c.rpos > 0 /\ t.segk # "none" /\ (~t.ele_set \/ t.epar # EleParent(t) \/ <<t.pele.pos, t.pele.sub>> # <<c.rpos, c.rsub>>)
@@ -96,13 +108,17 @@ EleError(t0, c) ==
   ELSE LET t1 == AddCurSeg(t)
            t2 == IF t1.ele_added THEN t1
                  ELSE [t1 EXCEPT !.nodes = Append(@, [t1.pele EXCEPT !.par = t1.segi]), !.elei = Len(t1.nodes) + 1, !.ele_added = TRUE]
-       IN AddErr(t2, t2.elei, c.code, c.val, c.y)
-GsAckCode(t, i) == IF (\E j \in 1..Len(t.nodes) : t.nodes[j].par = i /\ t.nodes[j].t = "st" /\ StErrCount(t, j) > 0) \/ t.nodes[i].errs # <<>>
+           t3 == AddErr(t2, t2.elei, c.code, c.val, c.y)
+       IN IF t3.segk \in {"st", "gs"} /\ t3.nodes[t3.segi].closed THEN [t3 EXCEPT !.nodes[t3.segi].ack = "R"] ELSE t3     \* SE / GE element error after close
+GsAckCode(t, i) == IF \/ \E j \in 1..Len(t.nodes) : t.nodes[j].par = i /\ t.nodes[j].t = "st" /\ StErrCount(t, j) > 0
+                      \/ t.nodes[i].errs # <<>>
+                      \/ \E j \in 1..Len(t.nodes) : t.nodes[j].par = i /\ t.nodes[j].t = "ele" /\ t.nodes[j].errs # <<>>
                    THEN "R" ELSE "A"
 CloseIsaLoop(t, c) == IF t.isa = 0 THEN Crash(t) ELSE SetCursor([t EXCEPT !.nodes[t.isa].closed = TRUE], "isa", t.isa)
-CloseGsLoop(t, c) == IF t.gs = 0 \/ Env!IntOf(c.cnt) = Env!NaN THEN Crash(t) ELSE
+Declared(cnt) == IF Env!IntOf(cnt) = Env!NaN THEN 0 ELSE Env!IntOf(cnt)                  \* int(GE01), 0 when it is no number
+CloseGsLoop(t, c) == IF t.gs = 0 THEN Crash(t) ELSE
                      SetCursor([t EXCEPT !.nodes[t.gs].closed = TRUE, !.nodes[t.gs].ack = GsAckCode(t, t.gs),
-                                         !.nodes[t.gs].orig = Env!IntOf(c.cnt), !.nodes[t.gs].recv = c.recv], "gs", t.gs)
+                                         !.nodes[t.gs].orig = Declared(c.cnt), !.nodes[t.gs].recv = c.recv], "gs", t.gs)
 CloseStLoop(t, c) == IF t.st = 0 THEN Crash(t) ELSE
                      SetCursor([t EXCEPT !.nodes[t.st].closed = TRUE, !.nodes[t.st].ack = IF StErrCount(t, t.st) > 0 THEN "R" ELSE "A"], "st", t.st)
 
